@@ -152,7 +152,7 @@ def install(it):
         return builtins_.sigma_term(lambda k: it_.call(fn, [k], {}, ctx), n, ctx)
     reg("sigma", sigma)
 
-    def ufunc(it_, ctx, name, vectorised=True, result="real"):
+    def ufunc(it_, ctx, name, vectorised=True, result="real", native=None):
         return UFunc(name, vectorised, result)
     reg("ufunc", ufunc)
 
